@@ -5,6 +5,12 @@ ROOT = os.path.dirname(os.path.dirname(os.path.abspath(__file__)))
 
 # id -> (level, technique, level text, level note, design ref)
 CHECKS = {
+ "C15": ("exploration", "reference-model monitor on the CLI's diagnostics: planted grammars, stderr/exit observed, ground truth from an independent grammar analysis",
+         "The real CLI is run with and without -strict on grammars with planted undefined names, unreachable rules/cycles, left-recursive cycles under every operator behind nullable/consuming prefixes, duplicate definitions and clean grammars; the sets of (kind, rule) parsed from stderr must equal gram's own analysis; exit codes, silence and complete output are checked; panics are violations.",
+         "Held on the grammars produced; shapes where syntactic and semantic nullability coincide (DESIGN 6.3).", "5/C15"),
+ "C18": ("fault_enumeration", "process-boundary monitor over a source x destination x option matrix plus single-fault enumeration with strace syscall injection (ground truth of fired faults from the strace log)",
+         "Every cell of the matrix and every single injected fault (openat/read/write/close with ENOSPC, EIO, EACCES, EMFILE, ENOENT on the source and destination paths; all N for short sequences, sampled N for the thousands of destination writes, all N in the thorough tier) is executed against the real binary; status 0 must imply a destination byte-identical to the fault-free output, every failure must give non-zero status and a message.",
+         "Single faults only; strace counts per thread so non-firing requests are treated as fault-free runs; -version/-h are not generation requests; a closed stdout is re-opened on /dev/null by the Go runtime and therefore not a failing destination.", "5/C18"),
  "C01": ("exploration", "reference-model monitor: generated parsers (real peg + Go compiler) vs an independent PEG interpreter on generated grammars x inputs x entry rules",
          "Verdict and consumed prefix of the real generated parser are compared with an executable PEG specification on thousands of (well-formed grammar, entry rule, input) executions covering every operator of the .peg language both succeeding and failing; memo on and off; grammar text printed with random spelling variants.",
          "Held on the executions produced. Trusted: the reference interpreter (internal/ref), gram's well-formedness analysis, the Go compiler. Inputs <= 64 runes.", "5/C01"),
